@@ -2,8 +2,8 @@ import DustVerif.Proofs.PlistTotal2
 /-! Property C07, parameter-list part: decoding a discovery parameter list (participant, publication, subscription,
     topic) from ANY byte string returns a value or an error; it never panics and never reserves memory beyond a
     small multiple of the input length.  Model: Model/Plist.lean; lemmas: Proofs/PlistTotal{,2}.lean.
-    The theorems speak about the decoder with fixes/D11.patch and fixes/D13.patch applied (`Cfg.fixed`);
-    the as-is behaviour is kept as witnesses.  The inner XCDR2 decoding of a PID_TYPE_INFORMATION value is not
+    The theorems speak about the decoder of repository main (D11 and D13 repaired), with or without
+    fixes/D-plist-1.patch (`Cfg.main`, `Cfg.fixed`); the as-is behaviour is kept as witnesses.  The inner XCDR2 decoding of a PID_TYPE_INFORMATION value is not
     part of this model (it is the XCDR engine's `C07_xcdr_*`). -/
 namespace DustVerif.Plist
 
@@ -17,10 +17,10 @@ theorem C07_plist_total (cfg : Cfg) (h11 : cfg.fixD11 = true) (h13 : cfg.fixD13 
   · simp [Out.total]
   · apply decFields_total cfg h11 h13
     intro p hp
-    have := mkPl_items_le data p hp
+    have := mkPl_items_le cfg data p hp
     exact Nat.le_trans (Nat.mul_le_mul_right 24 this) hsz
 
-/-- the same, spelled out for the delivered configuration -/
+/-- the same, spelled out for the delivered configuration (main + fixes/D-plist-1.patch) -/
 theorem C07_plist_total_fixed (D : List DecField) (data : Bytes) (hsz : data.length * 24 ≤ allocLimit) :
     (∃ r, fromBytes Cfg.fixed D data = .ok r) ∨ (∃ e, fromBytes Cfg.fixed D data = .err e) := by
   have := C07_plist_total Cfg.fixed rfl rfl D data hsz
